@@ -56,7 +56,8 @@ def _freeze(r):
 
 
 @lemma('F1.frame', 'C05', quick=cells('rcell', [' \t', '#>-*+=|`~<[', '0123456789'], [{'frame': f, 'k': 1} for f in sorted(FRAMES)]),
-       thorough=[{'frame': f, 'k': 1, 'kr': 2, 'timeout': 3000} for f in sorted(FRAMES)] + [{'frame': f, 'k': 2, 'kr': 1, 'timeout': 3000} for f in sorted(FRAMES)], timeout=900, per_path=90,
+       thorough=cells('rcell', [' \t', '#>-*+=|`~<[', '0123456789'], [{'frame': f, 'k': 1} for f in sorted(FRAMES)] + [{'frame': f, 'k': 2, 'timeout': 3000} for f in sorted(FRAMES)]
+                      + [{'frame': f, 'k': 1, 'kr': 2, 'timeout': 3000} for f in sorted(FRAMES)]), timeout=900, per_path=90,
        covers=['block_tokenizer.py:tokenize_block', 'block_token.py:Paragraph.read', 'block_token.py:Heading.read',
                'block_token.py:ThematicBreak.read', 'block_token.py:Quote.read', 'block_token.py:Table.read'],
        note='A = skeleton with a symbolic hole (k code points over Σmd, no newline); the line after the blank line is fully symbolic '
